@@ -35,12 +35,17 @@ COVERAGE_TARGETS = [f'{op}:ok:{st}' for st in ('list', 'dict') for op in
 
 
 def _o(v):
-    """model object -> Python object: 0 stands for None"""
-    return None if v == 0 else v
+    """model object -> Python object: 0 stands for None; object k for the integer 1000*k, handed over as a
+    *fresh* Python int every time (outside CPython's small-int cache): equal to but not identical with the
+    ones handed over before - the model's objects are compared with `==`, as `list.index/remove/in` do"""
+    return None if v == 0 else int(str(1000 * v))
 
 
 def _i(v):
-    return 0 if v is None else v
+    if v is None:
+        return 0
+    assert isinstance(v, int) and v % 1000 == 0, v
+    return v // 1000
 
 
 def _payload(x):
@@ -96,17 +101,25 @@ def run_impl(case):
                 elif o == 'insert':
                     p.objects.insert(op['i'], _o(op['o']))
                 elif o == 'extend':
-                    p.objects.extend([_o(v) for v in op['os']])
+                    os_ = [_o(v) for v in op['os']]
+                    p.objects.extend(iter(os_) if op.get('iter') else os_)      # any iterable, as list.extend
                 elif o == 'update':
                     nkw = op.get('nkw', 0)        # the last nkw pairs are passed as keyword items
                     pos, kw = op['kvs'][:len(op['kvs']) - nkw], op['kvs'][len(op['kvs']) - nkw:]
                     if len({k for k, _ in kw}) != len(kw) or any(not k.isidentifier() for k, _ in kw):
                         pos, kw = op['kvs'], []
-                    p.objects.update([(k, _o(v)) for k, v in pos], **{k: _o(v) for k, v in kw})
+                    arg = [(k, _o(v)) for k, v in pos]
+                    if op.get('mapping') and len({k for k, _ in pos}) == len(pos):
+                        # any Mapping is a mapping (dict.update's contract), not only dict
+                        import collections
+                        arg = dict(arg) if op['mapping'] == 'dict' else collections.UserDict(dict(arg))
+                    p.objects.update(arg, **{k: _o(v) for k, v in kw})
                 elif o == 'popIdx':
                     ret = p.objects.pop(op['i']) if not op.get('default') else p.objects.pop()
                 elif o == 'popKey':
                     ret = p.objects.pop(op['k'])
+                elif o == 'popKeyD':
+                    ret = p.objects.pop(op['k'], _o(op['d']))
                 elif o == 'remove':
                     p.objects.remove(_o(op['o']))
                 elif o == 'clear':
@@ -125,7 +138,7 @@ def run_impl(case):
                     raise RuntimeError(o)
             except (IndexError, ValueError, KeyError) as e:
                 err = type(e).__name__
-            if o in ('popIdx', 'popKey') and err is None:
+            if o in ('popIdx', 'popKey', 'popKeyD') and err is None:
                 ret = _i(ret)        # a popped None object is the model's 0
             elif ret is not None:
                 return {'crash': f'{o} returned {ret!r}'}
@@ -160,13 +173,16 @@ def _alphabet(style, pos):
         return common_ops + [{'op': 'setIdx', 'i': 0, 'o': n1}, {'op': 'setIdx', 'i': -1, 'o': n1},
                              {'op': 'setIdx', 'i': 5, 'o': n1}, {'op': 'append', 'o': n1},
                              {'op': 'insert', 'i': 1, 'o': n1}, {'op': 'insert', 'i': -9, 'o': n1},
-                             {'op': 'insert', 'i': 9, 'o': n1}, {'op': 'extend', 'os': [n1, n2]},
+                             {'op': 'insert', 'i': 9, 'o': n1}, {'op': 'extend', 'os': [n1, n2]}, {'op': 'extend', 'os': [n1, n2], 'iter': True},
                              {'op': 'replaceList', 'os': [n1, 2, n2]}, {'op': 'replaceList', 'os': []}]
     return common_ops + [{'op': 'setKey', 'k': 'a', 'o': n1}, {'op': 'setKey', 'k': 'z', 'o': n1},
                          {'op': 'update', 'kvs': [['b', n1], ['y', n2]]}, {'op': 'update', 'kvs': []},
                          {'op': 'update', 'kvs': [['b', n1], ['y', n2]], 'nkw': 2},
                          {'op': 'replaceDict', 'kvs': [['p', n1], ['q', n2]], 'mapping': 'proxy'},
                          {'op': 'popKey', 'k': 'a'}, {'op': 'popKey', 'k': 'c'}, {'op': 'popKey', 'k': 'q'},
+                         {'op': 'popKeyD', 'k': 'a', 'd': 0}, {'op': 'popKeyD', 'k': 'q', 'd': 0}, {'op': 'popKeyD', 'k': 'q', 'd': 2},
+                         {'op': 'update', 'kvs': [['b', n1], ['y', n2]], 'mapping': 'userdict'},
+                         {'op': 'update', 'kvs': [['xy', n1]], 'mapping': 'userdict'},
                          {'op': 'setKey', 'k': '', 'o': n1}, {'op': 'popKey', 'k': ''},
                          {'op': 'replaceDict', 'kvs': [['p', n1], ['a', 2], ['q', n2]]},
                          {'op': 'replaceDict', 'kvs': []}]
@@ -233,12 +249,15 @@ def _random_case(rng):
             op = {'setIdx': lambda: {'op': 'setIdx', 'i': idx(), 'o': newo()},
                   'append': lambda: {'op': 'append', 'o': newo()},
                   'insert': lambda: {'op': 'insert', 'i': idx(), 'o': newo()},
-                  'extend': lambda: {'op': 'extend', 'os': [newo() for _ in range(rng.randint(0, 3))]}}[k]()
+                  'extend': lambda: {'op': 'extend', 'os': [newo() for _ in range(rng.randint(0, 3))],
+                                     'iter': rng.random() < 0.4}}[k]()
         else:
-            k = rng.choice(['setKey', 'setKey', 'update', 'popKey'])
+            k = rng.choice(['setKey', 'setKey', 'update', 'popKey', 'popKeyD'])
             op = {'setKey': lambda: {'op': 'setKey', 'k': ekey(), 'o': newo()},
-                  'update': lambda: (lambda kvs: {'op': 'update', 'kvs': kvs, 'nkw': rng.randint(0, len(kvs))})(
+                  'update': lambda: (lambda kvs: {'op': 'update', 'kvs': kvs, 'nkw': rng.randint(0, len(kvs)),
+                                                  'mapping': rng.choice([None, None, 'dict', 'userdict'])})(
                       [[ekey(), newo()] for _ in range(rng.randint(0, 3))]),
+                  'popKeyD': lambda: {'op': 'popKeyD', 'k': ekey(), 'd': rng.choice([0, existing(), next(fresh)])},
                   'popKey': lambda: {'op': 'popKey', 'k': ekey()}}[k]()
         ops.append(op)
         # keep the shadow roughly in step by asking nothing of the implementation: approximate
@@ -294,6 +313,29 @@ def cases(rng, tier, worker, nworkers):
         yield _random_case(rng)
 
 
+def compare(impl, model):
+    """The model has no notion of object identity: its objects are compared with `==`.  Once a history has put
+    two equal objects into the Selector (outside "unique objects"), `pop`/`remove` distinguish them by identity
+    in the library and the model cannot follow; the steps after the one that created the duplicate are not
+    compared (the property does not speak about them either)."""
+    from ..run import first_diff
+    if not (isinstance(impl, dict) and isinstance(model, dict) and 'steps' in impl and 'steps' in model):
+        return first_diff(impl, model)
+    def dup(obs):
+        l = obs.get('list', [])
+        return len(set(l)) != len(l)
+    k = len(model['steps'])
+    if dup(model.get('init', {})) or dup(impl.get('init', {})):
+        k = 0
+    else:
+        for j, (a, b) in enumerate(zip(model['steps'], impl['steps'])):
+            if dup(a) or dup(b):
+                k = j + 1
+                break
+    cut = lambda o: dict(o, steps=o['steps'][:k])
+    return first_diff(cut(impl), cut(model))
+
+
 def tags(case, impl):
     t = [case['kind'], 'dict-declared' if case['decl']['names'] is not None else 'list-declared',
          f'len={min(len(case["ops"]), 10)}' + ('+' if len(case['ops']) >= 10 else '')]
@@ -325,8 +367,22 @@ def shrink(case):
 
 
 def classify(case, impl, fail):
+    """the one recorded finding, and nothing that merely looks like it: the failing step is a value assignment
+    to a non-checking Selector *with names*, the value was not among the objects, and all that happened is that
+    it was appended to the objects without a name (no duplicate, nothing else moved)"""
+    import re
     why = str(fail.get('why', ''))
-    if fail.get('kind') == 'counterexample' and not case['decl']['check_on_set'] \
-            and 'Op.assign' in why and 'objects/names inconsistent' in why:
+    m = re.match(r'after step (\d+) \(ParamVerif\.Selector\.Op\.assign', why)
+    if fail.get('kind') != 'counterexample' or case['decl']['check_on_set'] or not m \
+            or 'objects/names inconsistent' not in why or not (isinstance(impl, dict) and 'steps' in impl):
+        return None
+    n = int(m.group(1))
+    if n >= len(impl['steps']) or n >= len(case['ops']) or case['ops'][n]['op'] != 'assign':
+        return None
+    cur = impl['steps'][n]
+    prev = impl['steps'][n - 1] if n else impl['init']
+    v = case['ops'][n]['v']
+    if (prev['names'] and cur['names'] == prev['names'] and v not in prev['list'] and cur['list'] == prev['list'] + [v]
+            and [o for _, o in cur['names']] == prev['list'] and len(set(cur['list'])) == len(cur['list'])):
         return 'nonchecking-assign-leaves-object-unnamed'
     return None
